@@ -67,3 +67,38 @@ def fuel_genes(ctx: Ctx, cfg, genotype):
     if cfg.get("rep") == "stack" and not isinstance(genotype.dna, FuelList):
         genotype.dna = FuelList(genotype.dna, ctx, cfg.get("gene_fuel", 12))
     return genotype
+
+
+def pipeline(ctx: Ctx, cfg, check, on_error=None):
+    """create -> map -> (mutate | crossover)* ; `check(ctx, fx, g, program, stage)` on every
+    phenotype.  Library errors end the path quietly (creation may fail with the library's own
+    error type) unless on_error is given."""
+    fx, g = make_grammar(ctx, cfg)
+    r = FreshRandom(ctx)
+    try:
+        rep = make_rep(cfg, g, r)
+        g1 = fuel_genes(ctx, cfg, rep.create_genotype(r))
+        p1 = rep.genotype_to_phenotype(g1)
+    except LIBRARY_ERRORS as e:
+        if on_error:
+            on_error(ctx, fx, g, e, "create")
+        return
+    check(ctx, fx, g, p1, "create")
+    cur = g1
+    for k, op in enumerate(cfg.get("ops", [])):
+        try:
+            if op == "mutate":
+                cur = fuel_genes(ctx, cfg, rep.mutate(r, cur))
+                ph = [rep.genotype_to_phenotype(cur)]
+            else:
+                other = rep.create_genotype(r)
+                c1, c2 = rep.crossover(r, cur, other)
+                c1, c2 = fuel_genes(ctx, cfg, c1), fuel_genes(ctx, cfg, c2)
+                ph = [rep.genotype_to_phenotype(c1), rep.genotype_to_phenotype(c2)]
+                cur = c1
+        except LIBRARY_ERRORS as e:
+            if on_error:
+                on_error(ctx, fx, g, e, f"{op}#{k}")
+            return
+        for p in ph:
+            check(ctx, fx, g, p, f"{op}#{k}")
